@@ -88,7 +88,10 @@ def corr_heap(ck, n, maxsteps):
         # release order (theorem release_order_irrelevant; SimOps iterates a Python set): the state after releasing a set of
         # live chunks must not depend on the order
         oc = {'kind': 'heap-order', 'ops': ops, 'pseed': rng.randint(0, 2**31 - 1)}
-        ok, obs, exp = eval_case(oc)
+        try:
+            ok, obs, exp = eval_case(oc)
+        except Exception as ex:      # the same history replayed on a FRESH Heap object does not reproduce (state outside the object)
+            ok, obs, exp = False, {'replay_on_fresh_heap_raised': f'{type(ex).__name__}: {ex}'[:200]}, {'same_locations': 'as in the first run of this history'}
         if not ok: ck.violation('heap-order', 'the heap state after releasing a set of chunks depends on the order', oc, obs, exp)
 
 
